@@ -108,6 +108,11 @@ CHECKS['C15'] = ('model_checking', 'exhaustive enumeration of run histories on o
     '(b) 2-3 real threads each run a simulation while a baton-passing scheduler owns every switch (points after every activation and around StateHandler.assign); all schedules within the preemption bound are enumerated (DFS over choice prefixes) and every thread must log exactly what it logs alone and see no simulation afterwards.',
     'Switches only at the modelled points; no free-running race detection. states = complete schedules, transitions = scheduling decisions.',
     'DESIGN.md section 3 C15')
+CHECKS['C19'] = ('model_checking', 'explicit-state BFS over operation histories per resource type with state deduplication on the reference model state; every transition executed on the real usim.py resource and compared with a sequential reference model',
+    'For 13 resource configurations (Container, Store, PriorityStore, FilterStore, Resource, PriorityResource, PreemptiveResource) all histories of one operation per time step (put/get/request with every argument, cancel of every pending request, release of every user) are explored breadth-first to depth 4/6 with deduplication on the complete model state; '
+    'each transition is replayed on the real resource with every operation issued by its own SimPy process, and level/items/users/queues/grants/preemption details must equal the reference model; from every reachable state every ordered pair of operations is also issued within one time step and capacity, conservation, exactly-once hand-out and no-grantable-head-left-waiting are checked.',
+    'The reference models are the specification (request-triggered service, strict FIFO heads, filter scan, (priority,time,not preempt) order, head-of-queue preemption). A cancel only removes a request.',
+    'DESIGN.md section 3 C19')
 PENDING = {}
 
 def main():
